@@ -26,12 +26,15 @@ def validated_param(e, method):
 
 
 def v_ladder(ctx, tname, adtp, maxn):
-    """try_from_floats: k-th next() validated before use, missing k-th item returns the k-component constructor with the items in order"""
+    """try_from_floats: the k-th next() is validated before use; when it is missing the k-component constructor is returned with the items so
+    far in order; with all items present the full constructor.  Three spellings of a step are read:
+        let x = match it.next() { Some(v) => *v.try_validate_01()?, None => return Ok(new_k(..)) };
+        let Some(v) = it.next() else { return Ok(new_k(..)) };   let x = *v.try_validate_01()?;
+        match it.next() { None => Ok(new_k(..)), Some(v) => { let x = *v.try_validate_01()?; <rest of the ladder> } }       (as the tail)"""
     f = ctx.facts
-    # ladder
     it = f.hir_fn("try_from_floats", self_ty=adtp)
     ctx.fn(it)
-    body = strip(it["body"])
+
     def next_call(e_):
         e_ = strip(e_) if e_ else None
         return bool(e_) and e_["k"] == "MethodCall" and e_["method"] == "next"
@@ -45,52 +48,86 @@ def v_ladder(ctx, tname, adtp, maxn):
         b_ = hir.pat_bindings(pat) or [fd["pat"].get("name") for fd in pat.get("fields", [])]
         return b_[0] if len(b_) == 1 else None
 
-    # a ladder step, in either spelling, is (validated name, item validated?, expression returned when the item is missing):
-    #   let x = match it.next() { Some(v) => *v.try_validate_01()?, None => return Ok(..) };
-    #   let Some(v) = it.next() else { return Ok(..) };  let x = *v.try_validate_01()?;
-    all_lets = [s for s in body["stmts"] if s["k"] == "Let"]
-    steps, used, raw_pending = [], set(), None
-    for idx_, s in enumerate(all_lets):
-        init = strip(s["init"]) if s.get("init") else None
-        if init is not None and init["k"] == "Match" and next_call(init["scrut"]):
-            some_ok, none_ret = False, None
-            for v, arm, pat in hir.arms_by_variant(init):
-                if v == "Some":
-                    some_ok = validated_param(arm["body"], "try_validate_01") == some_binding(pat)
-                if v == "None":
-                    none_ret = strip(arm["body"])
-            steps.append((s["pat"].get("name"), some_ok, none_ret))
-            used.add(idx_)
-        elif s.get("els") and next_call(s.get("init")) and some_binding(s["pat"]):
-            rets_ = [n_ for n_ in hir.walk(s["els"]) if n_.get("k") == "Ret"]
-            raw_pending = (some_binding(s["pat"]), rets_[0] if len(rets_) == 1 else None)
-            used.add(idx_)
-        elif raw_pending and init is not None and validated_param(init, "try_validate_01") == raw_pending[0] and s["pat"].get("k") == "Binding":
-            steps.append((s["pat"]["name"], True, raw_pending[1]))
-            raw_pending = None
-            used.add(idx_)
-    if raw_pending:
-        steps.append((raw_pending[0], False, raw_pending[1]))        # extracted but never validated
-    # other `let`s are named temporaries: read through (`let t = Self::new_triple(p, d, q); Ok(t)`)
-    temps = hir.let_env({"k": "Block", "stmts": [s for i_, s in enumerate(all_lets) if i_ not in used], "expr": None})
-    nexts = hir.find_calls(it["body"], "next")
-    ctx.ob("V-CTOR", "%s::try_from_floats reads at most %d items" % (tname, maxn), len(nexts) == maxn and len(steps) == maxn, "%d next() calls" % len(nexts))
+    def ok_ctor(e_, k, bound):
+        """e_ is `Ok(new_k(bound..))`, possibly behind `return`"""
+        e_ = strip(e_) if e_ else None
+        if e_ is not None and e_["k"] == "Block":
+            rets = [n_ for n_ in hir.walk(e_) if n_.get("k") == "Ret"]
+            e_ = rets[0] if len(rets) == 1 else (strip(hir.last_expr(e_)) if e_.get("expr") else None)
+        if e_ is not None and e_["k"] == "Ret":
+            e_ = strip(e_["e"])
+        if e_ is None or e_["k"] != "Call" or hir.callee_name(e_) != "Ok":
+            return False
+        inner = strip(e_["args"][0])
+        return inner["k"] == "Call" and k < len(NAMES) and hir.callee_name(inner) == NAMES[k] and [field_path(a) for a in inner["args"]] == [(x,) for x in bound]
+
+    steps = []          # (validated?, absence returns the right constructor?)
     bound = []
-    for k, (name_, some_ok, r) in enumerate(steps):
-        none_ok = False
-        if r is not None and r["k"] == "Ret":
-            c = strip(r["e"])
-            if c["k"] == "Call" and hir.callee_name(c) == "Ok":
-                inner = strip(c["args"][0])
-                none_ok = inner["k"] == "Call" and hir.callee_name(inner) == NAMES[k] and [field_path(a) for a in inner["args"]] == [(x,) for x in bound]
+    temps = {}
+
+    def walk(block):
+        nonlocal temps
+        block = strip(block)
+        stmts = block["stmts"] if block["k"] == "Block" else []
+        tail = block.get("expr") if block["k"] == "Block" else block
+        raw_pending = None
+        for s_ in stmts:
+            if s_["k"] != "Let":
+                continue
+            init = strip(s_["init"]) if s_.get("init") else None
+            if init is not None and init["k"] == "Match" and next_call(init["scrut"]):
+                some_ok, none_ok = False, False
+                for v, arm, pat in hir.arms_by_variant(init):
+                    if v == "Some":
+                        some_ok = validated_param(arm["body"], "try_validate_01") == some_binding(pat)
+                    if v == "None":
+                        none_ok = ok_ctor(arm["body"], len(steps), bound)
+                steps.append((some_ok, none_ok))
+                bound.append(s_["pat"].get("name"))
+            elif s_.get("els") and next_call(s_.get("init")) and some_binding(s_["pat"]):
+                raw_pending = (some_binding(s_["pat"]), ok_ctor(s_["els"], len(steps), bound))
+            elif raw_pending and init is not None and validated_param(init, "try_validate_01") == raw_pending[0] and s_["pat"].get("k") == "Binding":
+                steps.append((True, raw_pending[1]))
+                bound.append(s_["pat"]["name"])
+                raw_pending = None
+            elif s_["pat"].get("k") == "Binding" and init is not None:
+                temps.update(hir.let_env({"k": "Block", "stmts": [s_], "expr": None}))
+        if raw_pending:
+            steps.append((False, raw_pending[1]))        # extracted but never validated
+        t_ = strip(tail) if tail is not None else None
+        if t_ is not None and t_["k"] == "Match" and next_call(t_["scrut"]):
+            none_ok, some_arm = False, None
+            for v, arm, pat in hir.arms_by_variant(t_):
+                if v == "None":
+                    none_ok = ok_ctor(arm["body"], len(steps), bound)
+                if v == "Some":
+                    some_arm = (arm, some_binding(pat))
+            if some_arm is None:
+                steps.append((False, none_ok))
+                return None
+            body_ = strip(some_arm[0]["body"])
+            first = [x for x in (body_["stmts"] if body_["k"] == "Block" else []) if x["k"] == "Let"][:1]
+            ok_val = bool(first) and first[0].get("init") is not None and validated_param(first[0]["init"], "try_validate_01") == some_arm[1] \
+                and first[0]["pat"].get("k") == "Binding"
+            steps.append((ok_val, none_ok))
+            if ok_val:
+                bound.append(first[0]["pat"]["name"])
+                rest = dict(body_, stmts=[x for x in body_["stmts"] if x is not first[0]])
+                return walk(rest)
+            return None
+        return t_
+
+    body = strip(it["body"])
+    tail = walk(body) if body["k"] == "Block" else walk({"k": "Block", "stmts": [], "expr": body})
+    nexts = hir.find_calls(it["body"], "next")
+    ctx.ob("V-CTOR", "%s::try_from_floats reads at most %d items" % (tname, maxn), len(nexts) == maxn and len(steps) == maxn, "%d next() calls, %d steps" % (len(nexts), len(steps)))
+    for k, (some_ok, none_ok) in enumerate(steps):
         ctx.ob("V-CTOR", "%s::try_from_floats step %d" % (tname, k), some_ok and none_ok,
-               "item %d must be validated before use and its absence must return %s(%s)" % (k, NAMES[k], bound))
-        bound.append(name_)
-    tail = hir.through_lets(hir.last_expr(it["body"]), temps)
-    ok = tail["k"] == "Call" and hir.callee_name(tail) == "Ok"
-    if ok:
-        inner = strip(tail["args"][0])
-        ok = inner["k"] == "Call" and hir.callee_name(inner) == NAMES[maxn] and [field_path(a) for a in inner["args"]] == [(x,) for x in bound]
+               "item %d must be validated before use and its absence must return %s(first %d items)" % (k, NAMES[min(k, len(NAMES) - 1)], k))
+    ok = False
+    if tail is not None:
+        t2 = hir.through_lets(tail, temps)
+        ok = ok_ctor(t2, maxn, bound)
     ctx.ob("V-CTOR", "%s::try_from_floats full arity" % tname, ok, "")
 
 
